@@ -75,12 +75,14 @@ def plot_diagrams(
         # Provide default labels for diagrams if using self.dgm_
         labels = ["$H_{{{}}}$".format(i) for i , _ in enumerate(diagrams)]
 
+    if not isinstance(labels, list):
+        # a single label is shared by all diagrams (must be expanded before
+        # plot_only indexes into it, or the string itself gets indexed)
+        labels = [labels] * len(diagrams)
+
     if plot_only:
         diagrams = [diagrams[i] for i in plot_only]
         labels = [labels[i] for i in plot_only]
-
-    if not isinstance(labels, list):
-        labels = [labels] * len(diagrams)
 
     # Construct copy with proper type of each diagram
     # so we can freely edit them.
